@@ -25,7 +25,7 @@ func init() {
 			"(ctime s/ns, mtime s/ns, dev, ino, mode, uid, gid, size), followed by object id and flags on both sides; the shared constants have git's values (entry header 42 = 40+2 bytes, extended flag 0x4000, name mask 0xfff, intent-to-add 1<<13, " +
 			"skip-worktree 1<<14) and both sides use the same constant objects; both padEntry functions skip padding for version 4 and pad to a multiple of 8; the decoder knows the TREE, REUC and EOIE extensions and treats unknown extensions " +
 			"whose first byte is A..Z as optional; (entries-sorted-before-write) the encoder passes a sort on every path before it writes the first entry, and the ordering used compares Name and Stage; (bytewise-string-loops) no decoder/encoder loop ranges over " +
-			"the runes of a string while indexing it by bytes. Not decided: agreement with git on generated indexes; extension contents; V4 prefix compression arithmetic.",
+			"the runes of a string while indexing it by bytes; (stage-bits-always-written) every value of the entry flags word that is written carries the entry's stage, also on the long-name path; (stream-not-read-in-map-order) no read from the index file happens inside a range over a map (found and fixed: resolve-undo stage hashes). Not decided: agreement with git on generated indexes; extension contents; V4 prefix compression arithmetic.",
 		Assumptions: []string{},
 		Run:         runC12,
 	})
